@@ -1,4 +1,4 @@
-CONSTANT Strict = FALSE
+CONSTANTS Strict = FALSE  PanicOnly = FALSE
 INIT TraceInit
 NEXT TraceNext
 POSTCONDITION AllConsumed
